@@ -36,6 +36,14 @@ RULES = [
     # because the binder's slot cannot occur in what the variable stands for (no capture)
     ("pull-in", "(mul ?a (sum 1 ?b))", "(sum 1 (mul ?a ?b))", None),
     ("let-in", "(add ?a (let 1 ?b ?c))", "(let 1 (add ?a ?b) ?c)", None),
+    # re-binding rules whose replacement MENTIONS the replaced variable: the sum over the whole field is invariant under
+    # the bijections x -> x+1 and x -> 2x (p odd).  b[x := t(x)] must replace exactly the occurrences of x in b - a
+    # subterm that only BECOMES equal to x after its own occurrences were replaced is not x (defect D17)
+    ("add-p", "(add ?a P)", "?a", None),
+    # a left side that passes twice through a class which an EARLIER rule of the same pass makes slot-free
+    ("add-mul0", "(add (mul ?a 0) (mul ?a 0))", "0", None),
+    ("sum-shift", "(sum 1 ?a)", "(sum 1 (subst ?a (var 1) (add (var 1) 1)))", None),
+    ("sum-scale", "(sum 1 ?a)", "(sum 1 (subst ?a (var 1) (mul 2 (var 1))))", None),
 ]
 SUBPOOL = ["0", "1", "2", "(var 1)", "(var 2)", "(var 3)", "(add (var 1) 1)", "(mul (var 1) (var 1))", "(mul (var 2) (var 3))", "(sum 3 (mul (var 3) (var 1)))"]
 
